@@ -5,7 +5,7 @@ use std::collections::BTreeMap;
 use std::fmt::Write as _;
 
 use aranya_runtime::{
-    Address, CmdId, Command, Location, MaxCut, Prior, Priority, Query as _, Segment as _, Storage,
+    Address, CmdId, Command, Location, MaxCut, Prior, Priority, Segment as _, Storage,
 };
 
 pub const FACT_NAMES: &[&str] = &["payload"];
